@@ -183,6 +183,40 @@ func buildEntries(live bool) []*entry {
 		return tup.NewUniAttribute().Decode(codec.NewReader(b))
 	}})
 
+	// byte vectors the way tars2go's output reads them (cf. sBuffer in RequestF.go):
+	// no struct of tars/protocol/res has a vector<unsigned byte>, so ReadSliceUint8
+	// gets an entry of its own
+	for _, unsigned := range []bool{false, true} {
+		unsigned := unsigned
+		name := "codec.ReadSliceInt8(byte vector field)"
+		if unsigned {
+			name = "codec.ReadSliceUint8(byte vector field)"
+		}
+		es = append(es, &entry{name: name, class: "decode", rep: true, run: func(b []byte) error {
+			r := codec.NewReader(b)
+			_, ty, err := r.SkipToNoCheck(0, true)
+			if err != nil {
+				return err
+			}
+			if ty != codec.SimpleList {
+				return errRejected
+			}
+			if _, err = r.SkipTo(codec.BYTE, 0, true); err != nil {
+				return err
+			}
+			var length int32
+			if err = r.ReadInt32(&length, 0, true); err != nil {
+				return err
+			}
+			if unsigned {
+				var x []uint8
+				return r.ReadSliceUint8(&x, length, true)
+			}
+			var x []int8
+			return r.ReadSliceInt8(&x, length, true)
+		}})
+	}
+
 	type disp struct {
 		short string
 		d     dispatcher
